@@ -173,6 +173,8 @@ package simplefixgo
 // A variable captured by a goroutine's closure is not assigned again by the spawner
 // (checked for every `go func(){...}()` of the module).
 //@ rule[C04,C20] go-captures
+// A struct that holds a lock is never copied (the copy's lock would protect nothing).
+//@ rule[C20] lock-copies
 
 // ---- fields shared between goroutines (C20) ----------------------------------------------------
 //@ field[C20] Conn.reader: immutable_after(NewConn)
